@@ -275,6 +275,8 @@ impl CompactionHandover {
             }
 
             index.save(&self.shard_dir).await?;
+            #[cfg(sneldb_verif)]
+            crate::verif::step("compact.index_saved", &format!("\"shard\":{},\"drained\":{:?}", self.shard_id, drained_labels));
 
             if tracing::enabled!(tracing::Level::INFO) {
                 tracing::info!(
@@ -299,6 +301,8 @@ impl CompactionHandover {
             guard.push(new_label);
         }
         guard.sort();
+        #[cfg(sneldb_verif)]
+        crate::verif::step("compact.live_updated", &format!("\"shard\":{},\"live\":{:?}", self.shard_id, &*guard));
         debug!(
             target: "compaction_handover::commit_batch",
             shard = self.shard_id,
@@ -375,6 +379,8 @@ impl CompactionHandover {
                 continue;
             }
             let dst = batch_dir.join(label);
+            #[cfg(sneldb_verif)]
+            crate::verif::step("reclaim.renaming", &format!("\"shard\":{shard_id},\"label\":\"{label}\""));
             if let Err(err) = fs::rename(&src, &dst) {
                 warn!(
                     target: "compaction_handover::reclaim",
@@ -390,6 +396,8 @@ impl CompactionHandover {
             let path = batch_dir.join(label);
             match fs::remove_dir_all(&path) {
                 Ok(_) => {
+                    #[cfg(sneldb_verif)]
+                    crate::verif::step("reclaim.deleted", &format!("\"shard\":{shard_id},\"label\":\"{label}\""));
                     debug!(target: "compaction_handover::reclaim", shard = shard_id, %label, "Deleted reclaimed segment directory")
                 }
                 Err(err) => {
